@@ -100,7 +100,8 @@ def run_spec_search(ctx, rng, ntrees, npats, on_case=None, cfgs=CFGS, tree_size=
     known = {}
     extra_pats = [('r:g/s.l2e.l74.l78.l74:t', '**/*.txt'), ('r:s.l2e.l74.l78.l74:t', '*.txt'), ('r:G/s.l2e.l74.l78.l74:t', '***/*.txt'),
                   ('r:g/l78/G:t', '**/x/***'), ('r:l73.l75.l62:T', 'sub/'), ('r:l73.s:T', 's*/'), ('r:g/l78/g:t', '**/x/**'),
-                  ('r:l70.q/l6c.l6e.l6b/s:t', 'p?/lnk/*'), ('r:g/l66:t', '**/f'), ('r:l64.l61.l74.l61/s.l2e.l74.l78.l74:t', 'data/*.txt'), ('r:l61/s:t', 'a/*')]
+                  ('r:l70.q/l6c.l6e.l6b/s:t', 'p?/lnk/*'), ('r:g/l66:t', '**/f'), ('r:l64.l61.l74.l61/s.l2e.l74.l78.l74:t', 'data/*.txt'), ('r:l61/s:t', 'a/*'),
+                  ('r:g/l61/g/l78:t', '**/a/**/x'), ('r:g/l61/g:t', '**/a/**'), ('r:g/s/g/s:t', '**/*/**/*')]
     for t in range(len(trees.DESIGNED) + ntrees):
         spec = trees.DESIGNED[t] if t < len(trees.DESIGNED) else trees.random_spec(rng, size=rng.randint(*tree_size))
         with trees.Tree(spec) as T:
